@@ -51,9 +51,19 @@ def check(ctx):
     f = P.func("skmatter.metrics.componentwise_prediction_rigidity")
     Xtr, Xte = _lists()
     cd = arr("comp_dims", "Cn", dtype="int")
-    I, st = ctx.interp(), State()
+
+    def dims_total(interp, qual, args, kw, st_, node):
+        # documented precondition: the component dimensions partition the feature axis
+        if qual == "numpy.sum" and len(args) == 1 and not kw and args[0].term == cd.term:
+            from ..apitable import int_of_dim
+
+            v = int_of_dim(Dim.of("F"))
+            return v.replace(term=T("sum", cd.term))
+        return None
+
+    I, st = ctx.interp(call_hook=dims_total), State()
     r = ctx.call_func(I, st, f, Xtr, Xte, alpha, cd)
-    I2, s2 = ctx.interp(), State()
+    I2, s2 = ctx.interp(call_hook=dims_total), State()
     ref = ctx.call_func(I2, s2, "ref.rigidity_ref.cpr", Xtr, Xte, alpha, cd)
     site = ctx.site(f)
     if ctx.ob("NF-PR", "componentwise_prediction_rigidity returns (CPR, LCPR, rank_diff)", r.items is not None and len(r.items) == 3, f"{r!r}"[:100], site):
